@@ -1223,6 +1223,13 @@ func (sc *serverConn) handleHeaderFrame(strm *Stream, fr *FrameHeader) error {
 			break
 		}
 
+		if len(b) == 0 && hf.Empty() {
+			// The fragment ended in a dynamic table size update, which
+			// consumes input without producing a field: there is nothing to
+			// validate or to hand to the request yet.
+			break
+		}
+
 		k, v := hf.KeyBytes(), hf.ValueBytes()
 
 		// RFC 7540 6.5.2 sizes a field as name + value + 32. The running total
